@@ -30,6 +30,12 @@ func BreakerHandler(method, path string, metrics *stat.Metrics) func(http.Handle
 
 			cw := response.NewWithCodeResponseWriter(w)
 			defer func() {
+				// a panicking handler is a failure, whatever status it had written so far
+				if p := recover(); p != nil {
+					promise.Reject(fmt.Sprint(p))
+					panic(p)
+				}
+
 				if cw.Code < http.StatusInternalServerError {
 					promise.Accept()
 				} else {
